@@ -659,6 +659,8 @@ def run(tier):
     if agg.queries == 0 or agg.exhaustive == 0:
         raise FrameworkError("vacuity gate: nothing was replayed")
     for name, st in kc_stats.items():
+        if st["failures"]:
+            continue        # a failing case is abandoned, so its first centres were not all drawn
         if st["first_centres_seen"] != st["first_centres_needed"] or not st["early_stops"] or not st["cases_with_ties"] \
                 or not st["calls_reusing_matrix"]:
             raise FrameworkError("vacuity gate: GreedyKCenters replay %s did not cover every first centre / early stop / "
@@ -768,6 +770,66 @@ def selftest():
         acc, prefix, res = validate_trace("ds/NearestNeighborsTrace", cp, heap="2g")
         ok = (not acc) and prefix == i
         print("%-50s line %4d: %s" % (name, i + 1, "rejected there" if ok else "NOT rejected at that line (accepted=%s, prefix=%s)" % (acc, prefix)))
+        bad += 0 if ok else 1
+    # the same for the M4 audit: corrupt one table / counter of a dumped structure
+    apath = os.path.join(WORK, "c10-selftest-audit.ndjson")
+    rc, out, err = run_cmd([binary, "audit", apath, "gnat", "2-2-4-2-2-on", "1", "200"], env={"VERIF_SEED": str(vlib.seed())})
+    if rc != 0 or "AUDITED" not in out:
+        raise FrameworkError("selftest: audit dump failed: " + (err or out)[-1000:])
+    evs = vlib.read_ndjson(apath)
+    acc, prefix, res = validate_trace("ds/GnatAudit", apath, heap="2g")
+    print("dumped internals (%d records): %s" % (len(evs), "accepted" if acc else "REJECTED at %d" % (prefix + 1)))
+    bad += 0 if acc else 1
+
+    def afind(pred):
+        for i in range(40, len(evs)):
+            if evs[i]["e"] == "Audit" and pred(evs[i]):
+                return i
+        raise FrameworkError("selftest: no suitable audit record")
+
+    def tight(r, field, delta):
+        # pull one bound that is attained by some live element one unit inwards
+        dead = {(x["node"], x["slot"]) for x in r["removed"]}
+        nodes = r["nodes"]
+
+        def sub(i):
+            n = nodes[i - 1]
+            pts = [n["pivot"]["pt"]] + [d["pt"] for k, d in enumerate(n["data"]) if (i, k + 1) not in dead]
+            for c in n["children"]:
+                pts += sub(c)
+            return pts
+        for n in nodes:
+            cs = n["children"]
+            for a in range(len(cs)):
+                for b in range(len(cs)):
+                    if a != b:
+                        na = nodes[cs[a] - 1]
+                        ds = [_l1(na["pivot"]["pt"], p) for p in sub(cs[b])]
+                        if field == "maxRange" and max(ds) == na["maxRange"][b]:
+                            na["maxRange"][b] -= 1
+                            return True
+                        if field == "minRange" and min(ds) == na["minRange"][b]:
+                            na["minRange"][b] += 1
+                            return True
+        return False
+    acases = []
+    for field in ("maxRange", "minRange"):
+        i = afind(lambda r: tight(copy.deepcopy(r), field, 1))
+        c = copy.deepcopy(evs); tight(c[i], field, 1)
+        acases.append(("%s entry one unit too tight" % field, i, c, "RangeTablesConservative"))
+    i = afind(lambda r: len(r["removed"]) > 0)
+    c = copy.deepcopy(evs); c[i]["removed"][0] = {"node": 0, "slot": 0}
+    acases.append(("cached address outside the tree", i, c, "RemovedSubsetOfTree"))
+    c = copy.deepcopy(evs); c[i]["removed"][0]["slot"] = 0
+    acases.append(("a pivot in the removal cache", i, c, "NoRemovedPivot"))
+    c = copy.deepcopy(evs); c[i]["size"] += 1
+    acases.append(("size_ off by one", i, c, "SizeConsistent"))
+    for name, i, c, inv in acases:
+        vlib.write_ndjson(cp, c)
+        acc, prefix, res = validate_trace("ds/GnatAudit", cp, heap="2g")
+        ok = (not acc) and prefix == i and res.violated == inv
+        print("%-50s line %4d: %s" % (name, i + 1, "rejected there by " + inv if ok else
+                                      "NOT as expected (accepted=%s, prefix=%s, invariant=%s)" % (acc, prefix, res.violated)))
         bad += 0 if ok else 1
     print("selftest %s" % ("ok" if not bad else "FAILED"))
     return 0 if not bad else 1
